@@ -270,7 +270,7 @@ class Executor:
                 r = pyval.is_(x, y)
             elif x.kind == "opaque":
                 r = z3.BoolVal(True) if x.tag == y.tag else z3.Bool(fresh_name("is_opq"))
-            elif x.kind in ("bytes", "str") and self.spec_mode:
+            elif x.kind in ("bytes", "str", "real") and self.spec_mode:
                 r = x.t == y.t          # in clauses `is` on immutable values means "the same value"
             elif x.kind in ("bytes", "str", "tuple"):
                 r = z3.BoolVal(True) if same_atom(x, y) else z3.Bool(fresh_name("is_val"))
